@@ -59,6 +59,8 @@ type Program struct {
 	NFuncs   int
 	// Normalised: this program is the helper-inlined normal form (positions refer to regenerated source)
 	Normalised bool
+	// Sources: the overlay this program was loaded with (file name -> text); files not in it are as on disk
+	Sources map[string][]byte
 	// Canonicalised: string-emptiness tests were rewritten to the len form before type checking (canon.go)
 	Canonicalised bool
 	Inlined    []string
@@ -120,7 +122,7 @@ func loadOverlay(dir string, cfg Config, overlay map[string][]byte) (*Program, e
 	prog, _ := ssautil.AllPackages(pkgs, ssa.InstantiateGenerics)
 	prog.Build()
 
-	p := &Program{Dir: dir, Config: cfg, Fset: pkgs[0].Fset, AllPkgs: all, Prog: prog, Normalised: overlay != nil}
+	p := &Program{Dir: dir, Config: cfg, Fset: pkgs[0].Fset, AllPkgs: all, Prog: prog, Normalised: overlay != nil, Sources: overlay}
 	for _, pk := range pkgs {
 		if pk.PkgPath == ModulePath || strings.HasPrefix(pk.PkgPath, ModulePath+"/") {
 			p.Pkgs = append(p.Pkgs, pk)
